@@ -11,6 +11,16 @@ CHECKS = {
    technique="TLA+ spec CommitTree.tla model-checked with TLC; every reachable pair of leaf sequences replayed on real CommitTrees",
    text="CommitTree.tla transcribes rs_merkle + CommitTree/CommitProof with a collision-free hash; TLC checks EqualIffSame, ContainsIffPrefix, UnknownOtherwise, ProofPortable, AncestorIsLCP on every pair of leaf sequences of the bounded instance, and every pair is then one implementation test (roots, head proof, compare, contains, single-leaf proofs at every index) against the real crate. Exhaustive to the stated bound, simulated beyond.",
    note="SHA-256 collision freedom; harness term evaluation (harness/src/term.rs, tree_world.rs); bounds in evidence."),
+ "C06": dict(
+   level="model_checking", design="DESIGN.md 6.2, 7 (C06/C07), appendix A.1",
+   technique="TLA+ spec EventLog.tla model-checked with TLC; transition tour of the whole reachable graph replayed on real fs + sqlite event logs in lock-step",
+   text="EventLog.tla has one action per EventLog trait method over three co-resident logs with byte-identical events; TLC checks TreeEqStore, Isolation, AppendOrCut, RefusedUnchanged on the complete graph of the bounded instance and prints every edge; a transition tour covering every edge (quick: one representative per source/action/log/outcome/target) is executed on BackendEventLog::FileSystem and ::Database in lock-step for several log-type maps; after every step record streams (forward/reverse), times, hashes, in-memory tree, re-opened tree, diff_records answers and the call result are compared with the spec state and between the backends.",
+   note="CommitTree.tla lemmas; harness/src/eventlog_world.rs projection; bounds (3 logs, 2 terms, total length 3 quick / 4 thorough + simulation) in evidence."),
+ "C07": dict(
+   level="model_checking", design="DESIGN.md 6.2, 7 (C06/C07), appendix A.1",
+   technique="TLA+ spec EventLog.tla (PatchChecked/RewindPatch/ReplaceAll/RewindRollback actions) model-checked with TLC; every refusal edge replayed on real fs + sqlite logs with before/after comparison",
+   text="Same specification and replay as C06, attributed to the checked-patch / rewind-and-patch / replace-all / rollback actions: TLC enumerates every log state x checkpoint (matching, stale, diverged) x patch x rewind target of the bounded instance and checks RefusedUnchanged; each such edge is executed on both backends and the full record stream and tree must equal the spec's (unchanged on refusal, appended exactly on success).",
+   note="Log-level composite actions mirror server_helpers::event_patch's rewind/merge/rollback idiom; the real server function is exercised by the Sync world (C04/C05/C09) once registered."),
 }
 
 NOT_YET = {
